@@ -108,65 +108,75 @@ def replay_one(h):
     prog.append((cur, total))
     if raising:
       raise RuntimeError('progress callback raises')
-  old_chunk = fp.FASTBOOT_DOWNLOAD_CHUNK_SIZE_KB
-  fp.FASTBOOT_DOWNLOAD_CHUNK_SIZE_KB = K // 1024
-  import io
-  try:
+  # the same command is issued twice on one FastbootCommands object, the device answering the same way:
+  # a command keeps nothing from an earlier one (packets written, callbacks, result are those of the model both times)
+  for rnd in (1, 2):
+    if rnd == 2:
+      if bad:
+        break
+      del usb.tx[:], infos[:], prog[:]
+      usb.rx = list(rx)
+    old_chunk = fp.FASTBOOT_DOWNLOAD_CHUNK_SIZE_KB
+    fp.FASTBOOT_DOWNLOAD_CHUNK_SIZE_KB = K // 1024
+    import io
     try:
-      if h['mode'] == 'download':
-        img = image(size)
-        r = fb.download(io.StringIO(img), source_len=size, info_cb=info_cb, progress_callback=prog_cb)
-      else:
-        name, arg = h['cmd']
-        if name == 'getvar':
-          r = fb.get_var(arg, info_cb=info_cb)
-        elif name == 'oem':
-          r = fb.oem(arg, info_cb=info_cb)
-        elif name == 'flash':
-          r = fb.flash(arg, info_cb=info_cb)
+      try:
+        if h['mode'] == 'download':
+          img = image(size)
+          r = fb.download(io.StringIO(img), source_len=size, info_cb=info_cb, progress_callback=prog_cb)
         else:
-          r = fb._simple_command(name, arg=arg or None, info_cb=info_cb)
-      got = ('ok', r)
-    except Exception as e:  # pylint: disable=broad-except
-      got = ('error', type(e).__name__, str(e))
-  finally:
-    fp.FASTBOOT_DOWNLOAD_CHUNK_SIZE_KB = old_chunk
-  # result
-  exp = h['result']
-  if exp[0] == 'ok':
-    want = ('ok', text('OKAY', exp[1]))
-    if got[:2] != want:
-      bad.append('command returned %r, model says %r' % (got[:2], want))
-  else:
-    if got[0] != 'error' or got[1] != exp[1]:
-      bad.append('command %s, model says it raises %s' % (
-          'returned' if got[0] == 'ok' else 'raised ' + got[1], exp[1]))
-    elif exp[1] == 'FastbootRemoteFailureError' and text('FAIL', exp[2]) not in got[2]:
-      bad.append('remote failure error does not carry the device text')
-  # packets
-  exp_sent = []
-  for s in h['sent']:
-    if s[0] == 'cmd':
-      if h['mode'] == 'download':
-        exp_sent.append('download:%08x' % size)
+          name, arg = h['cmd']
+          if name == 'getvar':
+            r = fb.get_var(arg, info_cb=info_cb)
+          elif name == 'oem':
+            r = fb.oem(arg, info_cb=info_cb)
+          elif name == 'flash':
+            r = fb.flash(arg, info_cb=info_cb)
+          else:
+            r = fb._simple_command(name, arg=arg or None, info_cb=info_cb)
+        got = ('ok', r)
+      except Exception as e:  # pylint: disable=broad-except
+        got = ('error', type(e).__name__, str(e))
+    finally:
+      fp.FASTBOOT_DOWNLOAD_CHUNK_SIZE_KB = old_chunk
+    # result
+    exp = h['result']
+    if exp[0] == 'ok':
+      want = ('ok', text('OKAY', exp[1]))
+      if got[:2] != want:
+        bad.append('command returned %r, model says %r' % (got[:2], want))
+    else:
+      if got[0] != 'error' or got[1] != exp[1]:
+        bad.append('command %s, model says it raises %s' % (
+            'returned' if got[0] == 'ok' else 'raised ' + got[1], exp[1]))
+      elif exp[1] == 'FastbootRemoteFailureError' and text('FAIL', exp[2]) not in got[2]:
+        bad.append('remote failure error does not carry the device text')
+    # packets
+    exp_sent = []
+    for s in h['sent']:
+      if s[0] == 'cmd':
+        if h['mode'] == 'download':
+          exp_sent.append('download:%08x' % size)
+        else:
+          # get_var / flash always pass their argument, also an empty one: "command[:arg]" with the argument given
+          exp_sent.append(s[1] + (':' + s[2] if (s[2] or s[1] in ('getvar', 'flash')) else '') if s[1] != 'oem' else 'oem ' + s[2])
       else:
-        # get_var / flash always pass their argument, also an empty one: "command[:arg]" with the argument given
-        exp_sent.append(s[1] + (':' + s[2] if (s[2] or s[1] in ('getvar', 'flash')) else '') if s[1] != 'oem' else 'oem ' + s[2])
-    else:
-      exp_sent.append(image(size)[s[1]:s[1] + s[2]])
-  if usb.tx != exp_sent:
-    if len(usb.tx) != len(exp_sent):
-      bad.append('host sent %d packets, model says %d' % (len(usb.tx), len(exp_sent)))
-    elif usb.tx[0] != exp_sent[0]:
-      bad.append('command packet is %r, model says %r' % (usb.tx[0][:40], exp_sent[0][:40]))
-    else:
-      bad.append('image chunks differ from the model (sizes %s, model %s)'
-                 % ([len(x) for x in usb.tx[1:]], [len(x) for x in exp_sent[1:]]))
-  exp_infos = [(p[0], text(p[0], p[1])) for p in h['infos']]
-  if infos != exp_infos:
-    bad.append('info callback saw %s, model says %s' % (infos, exp_infos))
-  if prog != [tuple(p) for p in h['prog']]:
-    bad.append('progress callback saw %s, model says %s' % (prog, h['prog']))
+        exp_sent.append(image(size)[s[1]:s[1] + s[2]])
+    if usb.tx != exp_sent:
+      if len(usb.tx) != len(exp_sent):
+        bad.append('host sent %d packets, model says %d' % (len(usb.tx), len(exp_sent)))
+      elif usb.tx[0] != exp_sent[0]:
+        bad.append('command packet is %r, model says %r' % (usb.tx[0][:40], exp_sent[0][:40]))
+      else:
+        bad.append('image chunks differ from the model (sizes %s, model %s)'
+                   % ([len(x) for x in usb.tx[1:]], [len(x) for x in exp_sent[1:]]))
+    exp_infos = [(p[0], text(p[0], p[1])) for p in h['infos']]
+    if infos != exp_infos:
+      bad.append('info callback saw %s, model says %s' % (infos, exp_infos))
+    if prog != [tuple(p) for p in h['prog']]:
+      bad.append('progress callback saw %s, model says %s' % (prog, h['prog']))
+    if bad and rnd == 2:
+      bad[:] = ['second issue of the same command on one object: ' + b for b in bad]
   return bad
 
 
